@@ -7,6 +7,6 @@ export SLOT=${SLOT:-0}
 export WT=/tmp/wt/verify$SLOT
 /verif/tools/verify_mutation.sh $D $D/$DEMO $DEST "$@" > /dev/null 2>&1
 tail -1 $D/verify.log
-/verif/tools/seeded.sh $D/patch.diff $ID quick > $D/seeded.log 2>&1
+/verif/tools/seeded.sh $D/patch.diff ${ID:0:3} quick > $D/seeded.log 2>&1
 echo "seeded rc=$? $(grep -c '^VIOLATION' $D/seeded.log) VIOLATION lines"
 grep -h "^  violation \|violation " $D/seeded.log | head -4 | cut -c1-300
